@@ -210,6 +210,10 @@ func (g *agen) response(where string, shared []string) O {
 	r := O{}
 	if !g.cfg.RespDesc || g.Pct(50) {
 		r["description"] = "r" + fmt.Sprint(g.Int(0, 2))
+		if g.cfg.RespDesc && g.Pct(15) {
+			r["description"] = g.Pick([]string{" ", "\t", "\n ", "(empty)"}) // not empty: must be left alone
+			g.Label("response:blank-description")
+		}
 	} else {
 		g.Label("response:no-description")
 	}
@@ -312,10 +316,18 @@ func GenAPIDoc(d *D, cfg APICfg) *APICase {
 		defs["d"] = O{"type": "string"}
 	}
 	for i := g.Int(0, 2); i > 0; i-- {
-		params[fmt.Sprintf("s%d", i)] = g.param(i, "shared", nil)
+		nm := fmt.Sprintf("s%d", i)
+		if g.Pct(30) {
+			nm = g.name() // names that need escaping in a JSON pointer / URL fragment
+		}
+		params[nm] = g.param(i, "shared", nil)
 	}
 	for i := g.Int(0, 2); i > 0; i-- {
-		resps[fmt.Sprintf("r%d", i)] = g.response("shared", nil)
+		nm := fmt.Sprintf("r%d", i)
+		if g.Pct(30) {
+			nm = g.name()
+		}
+		resps[nm] = g.response("shared", nil)
 	}
 	sharedP, sharedR := SortedKeys(params), SortedKeys(resps)
 	pathPool := []string{"/a", "/a/{id}", "/"}
@@ -331,12 +343,16 @@ func GenAPIDoc(d *D, cfg APICfg) *APICase {
 	}
 	for i := npaths; i > 0; i-- {
 		p := g.Pick(pathPool)
+		pi := O{}
 		if cfg.Refs && g.Pct(15) {
 			g.Label("ref:pathitem")
-			paths[p] = O{"$ref": g.ref()}
-			continue
+			if g.Pct(70) {
+				paths[p] = O{"$ref": g.ref()}
+				continue
+			}
+			pi["$ref"] = g.ref() // a path item $ref next to its own parameters / operations
+			g.Label("ref:pathitem-with-siblings")
 		}
-		pi := O{}
 		if g.Pct(40) {
 			n := g.Int(1, 2)
 			var ps A
@@ -354,7 +370,13 @@ func GenAPIDoc(d *D, cfg APICfg) *APICase {
 			op := O{}
 			if g.Pct(60) {
 				g.opSeq++
-				op["operationId"] = fmt.Sprintf("op%d", g.opSeq)
+				id := fmt.Sprintf("op%d", g.opSeq)
+				if g.opSeq%2 == 0 && g.Pct(30) {
+					// an id that differs from the previous one by letter case only
+					id = fmt.Sprintf("OP%d", g.opSeq-1)
+					g.Label("op:id-case-variant")
+				}
+				op["operationId"] = id
 			} else {
 				g.Label("op:no-id")
 			}
